@@ -108,6 +108,11 @@ Definition op_fn (o : bop) : b64 -> b64 -> b64 :=
 Lemma cell_val_is_op o v1 v2 : cell_val o v1 v2 = op_fn o v1 v2.
 Proof. destruct o; reflexivity. Qed.
 
+Lemma cell_val_ieee o v1 v2 :
+  cell_val o v1 v2 = match o with Add => fadd v1 v2 | Sub => fsub v1 v2
+                                | Mul => fmul v1 v2 | Div => fdiv v1 v2 end.
+Proof. destruct o; reflexivity. Qed.
+
 (* error cells, dataset (op) dataset: the formula [err_dd] on the four cells *)
 Lemma binop_error_cells_ds o d d2 x k :
   wf d -> wf d2 -> binop o d (RDs d2) = Ok x -> k < prod (shape d) ->
@@ -131,6 +136,11 @@ Proof. cbn. intros E; now inversion E. Qed.
 Lemma binop_error_const_div d c x :
   binop Div d (RNum c) = Ok x -> error x = map (fun e => fdiv e (fabs c)) (error d).
 Proof. cbn. intros E; now inversion E. Qed.
+
+Lemma binop_error_const_factor d c x :
+  (binop Mul d (RNum c) = Ok x -> error x = map (fun e => fmul e (fabs c)) (error d)) /\
+  (binop Div d (RNum c) = Ok x -> error x = map (fun e => fdiv e (fabs c)) (error d)).
+Proof. split; [apply binop_error_const_mul | apply binop_error_const_div]. Qed.
 
 Lemma binop_error_const_shift o d c x :
   o = Add \/ o = Sub -> binop o d (RNum c) = Ok x -> error x = error d.
